@@ -97,4 +97,103 @@ theorem atoi_decDigits (n : Nat) (h : n < 2 ^ 63) : atoi (decDigits n) = ⟨n, n
   have h1 : ¬ (n ≥ 2 ^ (64 - 1)) := by omega
   simp [h1]
 
+/-- the digit loop on a number that does not fit: clamped to the maximum, range error -/
+theorem puLoop_digits_over (maxVal : Nat) (ds : Bytes) (hd : ∀ c ∈ ds, 48 ≤ c ∧ c ≤ 57) (acc : Nat)
+    (hacc : acc ≤ maxVal) (hgt : maxVal < digitFold acc ds) :
+    puLoop 10 maxVal false ds acc false = (maxVal, some .range, false) := by
+  induction ds generalizing acc with
+  | nil => simp [digitFold] at hgt; omega
+  | cons c r ih =>
+    have hc := hd c (by simp)
+    have hr : ∀ x ∈ r, 48 ≤ x ∧ x ≤ 57 := fun x hx => hd x (by simp [hx])
+    have hdv : digitVal c = some (c - 48) := by
+      simp only [digitVal, isDigitB, Bool.and_eq_true, decide_eq_true_eq]
+      simp [hc.1, hc.2]
+    have hstep : digitFold acc (c :: r) = digitFold (acc * 10 + (c - 48)) r := by simp [digitFold]
+    rw [hstep] at hgt
+    have h95 : (c == 95 && false) = false := by simp
+    simp only [puLoop, h95, Bool.false_eq_true, if_false, hdv]
+    have hge : ¬ (c - 48 ≥ 10) := by omega
+    simp only [hge, if_false]
+    by_cases hn : acc * 10 + (c - 48) > maxVal
+    · simp [hn]
+    · simp only [hn, if_false]
+      exact ih hr _ (by omega) hgt
+
+/-- strconv.Atoi of the decimal digits of ANY number: the number itself below 2^63, otherwise the
+clamped value 2^63 − 1 (with a range error that the size parser ignores) -/
+theorem atoi_decDigits_val (n : Nat) : (atoi (decDigits n)).val = ((min n (2 ^ 63 - 1) : Nat) : Int) := by
+  by_cases hsmall : n < 2 ^ 63
+  · rw [atoi_decDigits n hsmall]
+    have : min n (2 ^ 63 - 1) = n := by omega
+    rw [this]
+  have hs := decDigits_spec n
+  have hne := decDigits_ne_nil n
+  obtain ⟨c, r, hcr⟩ : ∃ c r, decDigits n = c :: r := by
+    cases hd : decDigits n with
+    | nil => exact absurd hd hne
+    | cons c r => exact ⟨c, r, rfl⟩
+  have hc := hs.1 c (by rw [hcr]; simp)
+  have hu : (parseUint (decDigits n) 10 0).val ≥ 2 ^ 63 ∧ (parseUint (decDigits n) 10 0).err ≠ some .syntax := by
+    unfold parseUint
+    have he : (decDigits n).isEmpty = false := by rw [hcr]; rfl
+    simp only [he, Bool.false_eq_true, if_false]
+    have hb : ((10 : Nat) == 0) = false := by decide
+    simp only [hb, Bool.false_eq_true, if_false]
+    have hz : ((0 : Nat) == 0) = true := by decide
+    simp only [hz, if_true]
+    by_cases hfit : n ≤ 2 ^ 64 - 1
+    · have := puLoop_digits (2 ^ 64 - 1) (decDigits n) hs.1 0 (by rw [hs.2]; exact hfit)
+      rw [this, hs.2]
+      simp
+      omega
+    · have := puLoop_digits_over (2 ^ 64 - 1) (decDigits n) hs.1 0 (by omega) (by rw [hs.2]; omega)
+      rw [this]
+      simp
+  unfold atoi parseInt
+  have he : (decDigits n).isEmpty = false := by rw [hcr]; rfl
+  simp only [he, Bool.false_eq_true, if_false]
+  have hsign : splitSign (decDigits n) = (false, decDigits n) := by
+    rw [hcr]
+    unfold splitSign
+    split
+    · rename_i heq; injection heq with h1 _; omega
+    · rename_i heq; injection heq with h1 _; omega
+    · rfl
+  rw [hsign]
+  have hns : ((parseUint (decDigits n) 10 0).err == some NumErr.syntax) = false := by
+    cases he2 : (parseUint (decDigits n) 10 0).err with
+    | none => rfl
+    | some e =>
+      cases e
+      · exact absurd he2 hu.2
+      · rfl
+  dsimp only
+  simp only [hns, Bool.false_eq_true, if_false]
+  have hz : ((0 : Nat) == 0) = true := by decide
+  simp only [hz, if_true]
+  have h1 : (parseUint (decDigits n) 10 0).val ≥ 2 ^ (64 - 1) := hu.1
+  have hmin : min n (2 ^ 63 - 1) = 2 ^ 63 - 1 := by omega
+  simp [h1, hmin]
+
+/-- ParseInt: a syntax error comes with the value 0 -/
+theorem parseInt_syntax_val (s : Bytes) (b bs : Nat) (h : (parseInt s b bs).err = some .syntax) :
+    (parseInt s b bs).val = 0 := by
+  unfold parseInt at h ⊢
+  dsimp only at h ⊢
+  by_cases h1 : s.isEmpty = true
+  · simp [h1]
+  · simp only [h1, if_false] at h ⊢
+    by_cases h2 : ((parseUint (splitSign s).2 b bs).err == some NumErr.syntax) = true
+    · simp [h2]
+    · simp only [h2, if_false] at h ⊢
+      exfalso
+      generalize (2 : Nat) ^ ((if (bs == 0) = true then 64 else bs) - 1) = cut at h
+      by_cases h3 : (!(splitSign s).1 && decide ((parseUint (splitSign s).2 b bs).val ≥ cut)) = true
+      · simp [h3] at h
+      · simp only [h3, if_false] at h
+        by_cases h4 : ((splitSign s).1 && decide ((parseUint (splitSign s).2 b bs).val > cut)) = true
+        · simp [h4] at h
+        · simp [h4] at h
+
 end Secs
